@@ -123,6 +123,8 @@ def oracle(case, impl, model=None):
                     return {"kind": "programmed output power differs from the request clamped into the chip's range", "request": p, "decoded": out, "expected": want}
             elif chip == "sx1276":
                 w = dict((int(t[1:3], 16) & 0x7f, int(t[3:5], 16)) for t in tw if len(t) == 5 and int(t[1:3], 16) & 0x80)
+                if 0x09 not in w or 0x4d not in w:
+                    continue
                 pc, pd = w[0x09], w[0x4d]
                 op_, mx = pc & 15, (pc >> 4) & 7
                 out10 = (10 * ((5 if pd == 0x87 else 2) + op_)) if pc & 0x80 else (108 + 6 * mx - 10 * (15 - op_))
@@ -133,6 +135,8 @@ def oracle(case, impl, model=None):
                     return {"kind": "SX1276 PaSelect does not follow the board's tx_boost setting"}
             else:
                 w = dict((int(t[1:3], 16) & 0x7f, int(t[3:5], 16)) for t in tw if len(t) == 5 and int(t[1:3], 16) & 0x80)
+                if 0x09 not in w or 0x5a not in w:
+                    continue        # this request did not write both PA registers: the register-file stage (power request sequences) judges it
                 pc, pd = w[0x09], w[0x5a]
                 out = ((5 if pd == 0x87 else 2) + (pc & 15)) if pc & 0x80 else (pc & 15) - 1
                 want = max(2, min(20, p)) if head["txboost"] == "1" else max(-1, min(14, p))
@@ -220,6 +224,50 @@ def adapter_oracle(case, impl):
     return None
 
 
+def power_history_lines(rng, tier):
+    """SX127x: the PA registers after a SEQUENCE of power requests (PaDac is sticky across requests unless rewritten): every ordered pair
+    over a grid of requests (thorough: every pair of -4..21), both PA paths, both chips; the register file is read back"""
+    lines = []
+    grid = list(range(-4, 22)) if tier == "thorough" else [-4, 0, 2, 5, 10, 14, 15, 17, 18, 19, 20, 21]
+    for chip in ("sx1272", "sx1276"):
+        for boost in (0, 1):
+            for a in grid:
+                for b in grid:
+                    lines.append(HEAD % (chip, boost, "-", "-") + " | power %d - 1 | power %d - 1 | dumpregs" % (a, b))
+    return lines
+
+
+def power_history_oracle(case, impl):
+    t = case.split(" | ")
+    chip = "sx1272" if "chip=sx1272" in t[0] else "sx1276"
+    boost = "txboost=1" in t[0]
+    outs = impl.split(" ; ")
+    if len(outs) < 3 or not outs[1].startswith("Ok"):
+        return None
+    m = re.search(r"regs=([0-9a-f]+)", outs[-1])
+    if not m:
+        return None
+    regs = bytes.fromhex(m.group(1))
+    pc = regs[0x09 - 1]
+    pd = regs[(0x5a if chip == "sx1272" else 0x4d) - 1]
+    p = int(t[2].split()[1])
+    op_ = pc & 15
+    if chip == "sx1272":
+        out10 = 10 * (((5 if pd & 7 == 7 else 2) + op_) if pc & 0x80 else op_ - 1)
+        want = max(2, min(20, p)) if boost else max(-1, min(14, p))
+        lo10 = 10 * want
+    else:
+        mx = (pc >> 4) & 7
+        out10 = (10 * ((5 if pd & 7 == 7 else 2) + op_)) if pc & 0x80 else (108 + 6 * mx - 10 * (15 - op_))
+        want = max(2, min(20, p)) if boost else max(-4, min(14, p))
+        lo10 = 10 * want - 2
+    if not (lo10 <= out10 <= 10 * want):
+        return {"kind": "SX127x: after a sequence of power requests the PA registers (PaConfig, PaDac) decode to another power than the last request "
+                        "clamped into the PA's range", "chip": chip, "requests": [t[1], t[2]], "decoded_tenths_dBm": out10, "expected_dBm": want,
+                "RegPaConfig": hex(pc), "RegPaDac": hex(pd)}
+    return None
+
+
 def run(rep, tier, rng):
     core.proof_stage(rep, ID, THEOREMS)
     if not core.build_both(rep):
@@ -244,6 +292,7 @@ def run(rep, tier, rng):
     rep.cov["operations_decoded_by_the_datasheet_oracle"] = nops
     al = adapter_lines(rng, tier)
     core.diff_stage(rep, "X:C17:lorawan-adapter", al, lambda c, i, m: adapter_oracle(c, i))
+    core.diff_stage(rep, "X:C17:sx127x power request sequences (register file)", power_history_lines(rng, tier), lambda c, i, m: power_history_oracle(c, i))
     ao = core.run_lines(core.harness_bin(), al)
     bad = 0
     for c, o in zip(al, ao):
